@@ -44,6 +44,15 @@ def generate(seed, mode="c07", opts=None):
     if mode == "c08":
         cfg["arrays"] = cfg["arrays"] or ch.chance(1, 2)
     ops, mids, g = gen.gen_design(ch, cfg)
+    if ch.chance(1, 5) and len(mids) >= 2:
+        # two unrelated modules (neither contains the other) under one name: legal as long as
+        # they are never exported in one package
+        pairs = [(a, b) for a in mids for b in mids if a < b and a not in hierarchy(g.d, [b]) and g.d.mods[a].style != "gen" and g.d.mods[b].style != "gen"]
+        if pairs:
+            a, b = ch.pick(pairs, "samename")
+            nm = g.d.mods[a].name
+            ops = [(["module", b, nm, op[3]] if (op[0] == "module" and op[1] == b) else op) for op in ops]
+            g.d.mods[b].name = nm
     netlistable = not cfg["physical"]
     script, ended = [], []
     density = ch.rint(1, 3, "density")
@@ -121,8 +130,14 @@ def inject_faults(ch, script, g, ended, netlistable):
                 tainted |= set(hier)
                 continue
         if kind == "boundary":
-            offender = ch.pick(hier, "offender")
-            pos = ch.rint(0, seams.DEFAULT_NPASSES, "pos")
+            # half of the time the failure is at the top of the call and late: every sub-module is
+            # then left partly elaborated (and clean), which later parents must not notice
+            if ch.chance(1, 2):
+                offender = victim_top
+                pos = ch.rint(4, seams.DEFAULT_NPASSES, "pos")
+            else:
+                offender = ch.pick(hier, "offender")
+                pos = ch.rint(0, seams.DEFAULT_NPASSES, "pos")
             block.append(["fault", "boundary", pos, offender, 0, label])
         elif kind == "mid":
             base = ch.pick(["ArrayFlattener", "BundleFlattener", "InstBundleElabPass"], "midbase")
@@ -139,7 +154,7 @@ def inject_faults(ch, script, g, ended, netlistable):
                 block += bad_ops
         block.append(call)
         # continuations
-        conts = ch.shuffle(["retry", "fix_retry", "other", "sibling"], "conts")[: ch.rint(1, 4, "nconts")]
+        conts = ch.shuffle(["retry", "fix_retry", "other", "sibling", "new_parent"], "conts")[: ch.rint(1, 5, "nconts")]
         fixed = False
         for c in conts:
             if c == "retry" and not fixed:
@@ -163,6 +178,18 @@ def inject_faults(ch, script, g, ended, netlistable):
                 sibs = [m for m in done if m != victim_top]
                 if sibs:
                     block.append(gen_call(ch, sibs, netlistable))
+            elif c == "new_parent":
+                # a brand-new parent of a *good* sub-module of the failed design, wiring its ports
+                # (bundle-valued ones by port reference or no-connect) as a first-time user would
+                good = [m for m in hier if offender is not None and offender not in hierarchy(design, [m]) and design.mods[m].style != "gen"]
+                np_ = plan_new_parent(ch, design, good, 600 + 10 * fno + len(block))
+                if np_ is not None:
+                    if not fixed and kind != "design" and ch.chance(1, 2):
+                        block.append(["reset_elab"])
+                        fixed = True
+                    nmid, nops = np_
+                    block += nops
+                    block.append(["to_proto", [nmid], ch.chance(1, 2)])
         if not fixed and kind != "design":
             block.append(["reset_elab"])
         out = out[:at] + block + out[at:]
@@ -170,6 +197,43 @@ def inject_faults(ch, script, g, ended, netlistable):
     # no late edits to modules a failed call may have left partially elaborated (contested ground)
     out = [op for op in out if op[0] != "expect_raise"]
     return out
+
+
+def plan_new_parent(ch, design, good, nmid):
+    cands = [m for m in good if design.target_ports(["mod", m])]
+    if not cands:
+        return None
+    withb = [m for m in cands if any(isinstance(sh, tuple) for sh in design.target_ports(["mod", m]).values())]
+    L = ch.pick(withb or cands, "npL")
+    ports = design.target_ports(["mod", L])
+    ops = [["module", nmid, f"NP{nmid}", "proc"], ["inst", nmid, "l1", ["mod", L], "setattr", {}], ["inst", nmid, "l2", ["mod", L], "add", {}]]
+    k = 0
+    for pname, sh in ports.items():
+        k += 1
+        style = ch.weighted([(3, "ref"), (2, "nc"), (2, "plain")], "npstyle")
+        if isinstance(sh, int):
+            if style == "ref":
+                ops.append(["conn", nmid, "l2", pname, ["pr", "l1", pname], "setattr"])  # l1's port stays implicit
+            elif style == "nc":
+                ops.append(["conn", nmid, "l1", pname, ["nc", k, None], "setattr"])
+                ops.append(["sig", nmid, f"w{k}", sh, "i", "n"])
+                ops.append(["conn", nmid, "l2", pname, ["s", f"w{k}"], "setattr"])
+            else:
+                ops.append(["sig", nmid, f"w{k}", sh, "p", "n"])
+                ops.append(["conn", nmid, "l1", pname, ["s", f"w{k}"], "setattr"])
+                ops.append(["conn", nmid, "l2", pname, ["s", f"w{k}"], "connect"])
+        else:
+            if style == "ref":
+                ops.append(["conn", nmid, "l2", pname, ["pr", "l1", pname], "setattr"])
+            elif style == "nc":
+                ops.append(["conn", nmid, "l1", pname, ["nc", k, None], "setattr"])
+                ops.append(["conn", nmid, "l2", pname, ["nc", 100 + k, None], "setattr"])
+            else:
+                ops.append(["bun", nmid, f"wb{k}", sh[1], False, False])
+                ops.append(["conn", nmid, "l1", pname, ["b", f"wb{k}"], "setattr"])
+                ops.append(["conn", nmid, "l2", pname, ["b", f"wb{k}"], "call"])
+    ops.append(["end", nmid])
+    return nmid, ops
 
 
 def plan_parent_repair(ch, prefix, design, hier, fno):
@@ -396,15 +460,6 @@ def run(scn):
     scn = dict(scn)
     scn["ops"] = eff
     design = refmodel.load([op for op in ops if op[0] in refmodel.DESIGN_OPS])
-    if mode == "c07":
-        ended = [op[1] for op in ops if op[0] == "end"]
-        try:
-            bad, _ = refmodel.judge(design, ended)
-        except refmodel.ModelError as e:
-            bad = ("model", str(e))
-        if bad:
-            res["discard"] = f"design ill-formed: {bad}"
-            return res
     fresh_cache = {}
     first_error = {}  # targets tuple -> exc of the first failure
     retry_state = {}  # call key -> (exc, (design version, installed elaborator))
@@ -456,6 +511,15 @@ def run(scn):
             return res
         d_now = design_at(ops, k)
         hier = hierarchy(d_now, op[1])
+        if mode == "c07":
+            # the design handed to this call must be well-formed for the verdict to mean anything
+            try:
+                bad, _ = refmodel.judge(d_now, op[1])
+            except refmodel.ModelError as e:
+                bad = ("model", str(e))
+            if bad:
+                probe("call_on_ill_formed_design_skipped")
+                continue
         contains_offender = bool(hier & (offenders | refusable))
         if o.get("not_closed"):
             res["findings"].append({"prop": "C06", "clause": "closed", "detail": o["not_closed"]})
